@@ -44,11 +44,12 @@ def shared_file() -> str:
 class Gate:
     """Outcomes of the network steps of one attempt (one task) of one transfer."""
 
-    def __init__(self, loop):
+    def __init__(self, loop, teardown: int = 0):
         self.loop = loop
         self.outcomes: dict[str, str] = {}
         self.waiters: dict[str, asyncio.Future] = {}
         self.reached: list[str] = []
+        self.teardown = teardown     # loop iterations a CANCELLED network step needs to unwind (connection tear-down)
 
     async def wait(self, stage: str) -> str:
         self.reached.append(stage)
@@ -58,6 +59,15 @@ class Gate:
         self.waiters[stage] = fut
         try:
             return await fut
+        except asyncio.CancelledError:
+            # opt-in: the cancelled step does not end at once (a real connection attempt closes its socket first);
+            # widens the window between `Task.cancel()` and the end of the task
+            for _ in range(self.teardown):
+                try:
+                    await asyncio.sleep(0)
+                except asyncio.CancelledError:
+                    break
+            raise
         finally:
             if self.waiters.get(stage) is fut:
                 del self.waiters[stage]
@@ -94,9 +104,13 @@ class StubShares:
         return FILE_SIZE
 
     async def find_shared_item(self, remote_path, username=None):
+        if remote_path in self.rig.unshared:
+            return None
         return _Item(shared_file())
 
     def find_shared_item_cache(self, remote_path, username=None):
+        if remote_path in self.rig.unshared:
+            return None
         return _Item(shared_file())
 
     def calculate_download_path(self, remote_path):
@@ -284,7 +298,7 @@ class StubNetwork:
 
 
 class Rig:
-    def __init__(self, loop, slots: int = 2):
+    def __init__(self, loop, slots: int = 2, teardown: int = 0):
         import logging
         logging.getLogger('aioslsk').setLevel(logging.CRITICAL)
         from aioslsk.settings import Settings
@@ -307,6 +321,8 @@ class Rig:
         self.task_ctx: dict = {}                   # task -> (k, att)
         self.dl_ticket: dict = {}                  # ticket of a scripted PeerTransferRequest -> download index
         self.attempt_ticket: dict = {}             # (k, att) -> ticket
+        self.teardown = teardown                   # see Gate.teardown (0 = a cancelled step ends at once)
+        self.unshared: set = set()                 # remote paths the shares stub no longer finds (opt-in, default none)
         # downloads are written below a per-process directory that every run starts (and ends) without
         self.download_dir = os.path.join(tempfile.gettempdir(), f'verif-xfer-dl-{os.getpid()}')
         self.cleanup()
@@ -361,7 +377,7 @@ class Rig:
     def gate(self, k, att) -> Gate:
         g = self.gates.get((k, att))
         if g is None:
-            g = self.gates[(k, att)] = Gate(self.loop)
+            g = self.gates[(k, att)] = Gate(self.loop, self.teardown)
         return g
 
     def current_gate(self, k) -> Optional[Gate]:
